@@ -30,6 +30,7 @@ type Frame struct {
 	Count   int    // array: completed elements; object: completed members
 	Name    string // object: the most recently completed name (valid if HasName)
 	HasName bool   // object: a name is complete and its value is pending, in progress or just completed
+	Pending bool   // object: a name is complete and its value is not yet complete
 	InValue bool   // a value slot is open: array element in progress / member whose name is complete and value not yet complete
 	names   map[string]struct{}
 	nameLst []string
@@ -132,6 +133,7 @@ func (p *Parser) Run(b []byte) *Result {
 			f := &p.stack[n-1]
 			f.Count++
 			f.InValue = false
+			f.Pending = false
 			ex = exCommaOrEnd
 		} else {
 			r.Values++
@@ -281,7 +283,7 @@ func (p *Parser) Run(b []byte) *Result {
 				}
 				f.add(name)
 			}
-			f.Name, f.HasName = name, true
+			f.Name, f.HasName, f.Pending = name, true, true
 			p.tok('"', i, end, true, name)
 			i = end
 			ex = exColon
